@@ -274,7 +274,8 @@ EDGE_STR = [0x41, 0x61, 0x20, 0x7E, 0x7F, 0xFF, 0x79, 0x50, 0x4F, 0x22, 0x80, 0x
 class ValueGen:
     """valid objects for generated classes (slot view: hardcoded named fields hold their literal)"""
 
-    def __init__(self, tree, rng, plain_strings=False, free_optionals=False):
+    def __init__(self, tree, rng, plain_strings=False, free_optionals=False, boundary_lengths=False):
+        self.boundary_lengths = boundary_lengths   # now and then the largest string length / element count a length field can carry
         self.R = Resolver(tree)
         self.rng = rng
         self.plain = plain_strings
@@ -354,7 +355,8 @@ class ValueGen:
                             li = lens[ln]['attrs']
                             off = int(li.get('offset', 0))
                             mx = IMAX[li['type']] + off
-                            v = {'s': self.gstr(rng.randrange(max(off, 0), max(off, 0) + min(mx, 6) + 1))}
+                            top = mx if (self.boundary_lengths and mx <= 260 and rng.random() < 0.1) else None      # now and then the largest length the field can carry
+                            v = {'s': self.gstr(top if top is not None else rng.randrange(max(off, 0), max(off, 0) + min(mx, 6) + 1))}
                     else:
                         v = self.value(ty, depth)
                 fields.append([name, v])
@@ -377,6 +379,8 @@ class ValueGen:
                     off = int(li.get('offset', 0))
                     mx = IMAX[li['type']] + off
                     n = rng.randrange(max(off, 0), max(off, 0) + min(mx, 4) + 1)
+                    if self.boundary_lengths and mx <= 260 and depth == 0 and rng.random() < 0.1 and ty['k'] in ('int', 'bool', 'enum'):
+                        n = mx                                                      # ... or the largest element count
                 n = min(n, 3) if depth > 1 and ln is None else n
                 fields.append([name, {'l': [self.value(ty, depth + 1) for _ in range(n)]}])
             elif t == 'chunked':
